@@ -117,7 +117,7 @@ func widthCluster(n int) []*rj.Value {
 	if nested != nil {
 		out = append(out, rj.NewObj(rj.Member{Name: "in", V: nested}))
 	}
-	out = append(out, rj.MustParse(`{"m0000":9,"z":1}`), rj.MustParse(`{"z":{"x":1},"m0001":{"x":5}}`))
+	out = append(out, rj.MustParse(`{"m0000":9,"z":1}`), rj.MustParse(`{"z":{"x":1},"m0001":{"x":5}}`), rj.MustParse(`{}`), rj.MustParse(`{"in":{},"gone":null}`))
 	return out
 }
 
@@ -348,8 +348,8 @@ func runSizeSweep(ctx *core.Ctx, id string, legacy bool, tier string, what sizeW
 				continue
 			}
 			objs := onlyObjs(c)
-			if strings.HasPrefix(l, "width") && n >= 100 && len(c) == 11 {
-				objs = []*rj.Value{c[0], c[3], c[5], c[7], c[8], c[9], c[10]} // base, last removed, nested changed, both one level down, the narrow partners
+			if strings.HasPrefix(l, "width") && n >= 100 && len(c) == 13 {
+				objs = []*rj.Value{c[0], c[3], c[5], c[7], c[8], c[9], c[10], c[11], c[12]} // base, last removed, nested changed, both one level down, the narrow and the empty partners
 			}
 			t0 := time.Now()
 			runCompose(ctx, id, legacy, objs, objs, objs)
